@@ -152,8 +152,16 @@ def run(prog, chk):
                 hit[0].id in fm.cfg.reach([u.id], avoid_nodes=stop) or u.id in fm.cfg.reach([hit[0].id], avoid_nodes=stop) for u in uses)
             chk.ob("R4.realpos-advances-by-bytes-read", "%s#%d" % (fname, i), ok, fm.where(n), "%s = self._read(..); self._realpos += len(%s) in the same iteration as the data is kept" % (v, v))
     wa = prog.method("BufferedFile", "_write_all")
+    fwa = Flow(prog, wa, implicit=False)
     t = [unparse(s) for s in walk_no_defs(wa.node) if isinstance(s, (ast.Assign, ast.AugAssign)) and ("_pos" in unparse(s) or "_realpos" in unparse(s) or "_size" in unparse(s))]
-    okw = t == ["self._size += count", "self._pos = self._realpos = self._size", "self._pos += count", "self._realpos += count"]
+    okw = sorted(t) == sorted(["self._size += count", "self._pos = self._realpos = self._size", "self._pos += count", "self._realpos += count"])
+    if okw:
+        is_app = lambda q: unparse(q) == "self._flags & self.FLAG_APPEND"
+        for n in fwa.nodes(lambda n: n.kind == "stmt" and unparse(n.ast) in t):
+            arm = "T" if "_size" in unparse(n.ast) else "F"
+            okw = okw and fwa.dominated([n], guard_edge=fwa.edge_guard(is_app, arm))
+        order = [unparse(n.ast) for n in sorted(fwa.nodes(lambda n: n.kind == "stmt" and "_size" in unparse(n.ast)), key=lambda n: n.lineno)]
+        okw = okw and order == ["self._size += count", "self._pos = self._realpos = self._size"]
     chk.ob("R4.positions-advance-by-bytes-written", "BufferedFile._write_all", okw, wa.loc, "%s" % t)
     rd = prog.method("SFTPFile", "_read")
     frd = Flow(prog, rd, implicit=False)
